@@ -95,6 +95,12 @@ bool splinetable<Alloc>::write_key(const char* key, const T& value){
 		//refer to section 4.1.2.1 then cfitsio's behavior of allowing long 
 		//keywords (not split by spaces or periods) at all is non-conforming anyway. 
 		for(size_t i=0; i<keylen-1; i++){
+			//cfitsio splits long keywords at blanks ("HIERARCH FOO" is stored
+			//as FOO), so a key containing one would not be found again
+			if(!std::isgraph(static_cast<unsigned char>(key[i])))
+				throw std::runtime_error("FITS header keywords must not contain blanks "
+										 "or unprintable characters (key was '"+
+										 std::string(key)+"')");
 			if(key[i]=='=')
 				throw std::runtime_error("Standard (short) FITS header keywords must not "
 										 "contain '=' characters (key was '"+
